@@ -18,7 +18,7 @@ NT == Len(Tampers)
 
 (* the constant tables, once, for the python driver (a JSON object line) *)
 ASSUME PrintT(ToJson([committed |-> MCCommitted, legacy |-> LegacyCommitted,
-                      txfields |-> MCTxFields, ntampers |-> NT]))
+                      txfields |-> MCTxFields, ntampers |-> NT, targets |-> MCTargets]))
 
 R(S) == {RandomElement(S)}
 CurV == Tampers[cursor][1]
@@ -31,25 +31,34 @@ TamperEnabled == CanGrow /\ HeadVIdx <= VIdx(CurV)
 MBTInit == Init /\ hist = <<>> /\ steps = 0 /\ cursor \in R(1..NT)
 
 Tamper(var) == OfferTampered(CurV, var, CurF) /\ cursor' = (cursor % NT) + 1
+(* the shape of the tampered block is drawn among the shapes in which the field has a target *)
+ShapesFor(f) == {s \in MCShapes : f \in MCTargets[s]}
 
 Other ==
-  \/ \E v \in R(OfferVersions) : Offer(v, 1)
-  \/ \E v \in R(OfferVersions), var \in R(1..Variants), w \in R(1..8) :
+  \/ \E v \in R(OfferVersions), var \in R(MCShapes) : Offer(v, var)
+  \/ \E v \in R(OfferVersions), var \in R(MCShapes), w \in R(1..11) :
        CASE w = 1 -> OfferWrongParent(v, var)
          [] w = 2 -> OfferWrongNumber(v, var, "skip")
          [] w = 3 -> IF Len(chain) > 0 THEN OfferWrongNumber(v, var, "repeat") ELSE OfferWrongParent(v, var)
-         [] w = 4 -> OfferWrongRoot(v, var, "root")
-         [] w = 5 -> OfferWrongRoot(v, var, "diff")
-         [] w = 6 -> OfferWrongRoot(v, var, "oldroot")
-         [] w = 7 -> OfferStaleClassHash(v, var)
+         [] w = 4 -> OfferWrongRoot(v, var, "root", "resealed")
+         [] w = 5 -> OfferWrongRoot(v, var, "diff", "resealed")
+         [] w = 6 -> OfferWrongRoot(v, var, "oldroot", "resealed")
+         [] w = 7 -> OfferStaleClassHash(v, "full")
          [] w = 8 -> OfferCommitFails(v, var)
+         [] w = 9 -> OfferWrongRoot(v, var, "root", "kept")
+         [] w = 10 -> OfferWrongRoot(v, var, "diff", "kept")
+         [] w = 11 -> OfferWrongRoot(v, var, "oldroot", "kept")
+  (* the empty-diff shapes get their own wrong-root draw: the root check must not depend on the
+     diff having entries *)
+  \/ \E v \in R(OfferVersions), var \in R(MCEmptyDiffShapes), k \in R({"root", "diff", "oldroot"}) :
+       OfferWrongRoot(v, var, k, "resealed")
   \/ IF pending = {} \/ (Cardinality(pending) < MaxPending /\ RandomElement({TRUE, FALSE}))
-     THEN \E v \in R(OfferVersions), var \in R(1..Variants) : VerifyAhead(v, var)
+     THEN \E v \in R(OfferVersions), var \in R(MCShapes) : VerifyAhead(v, var)
      ELSE \E b \in R(pending) : StorePending(b)
 
 SimNext ==
-  \/ Tamper(1)
-  \/ Tamper(2)
+  \/ \E var \in R(ShapesFor(CurF)) : Tamper(var)
+  \/ \E var \in R(ShapesFor(CurF)) : Tamper(var)
   \/ Other /\ UNCHANGED cursor
 
 Step ==
